@@ -10,7 +10,11 @@ import (
 	"ivgsa/internal/sym"
 )
 
-func init() { register("C14", ruleC14) }
+func init() {
+	register("C14", ruleC14)
+	register("C11", ruleC14_6shared)
+	register("C13", ruleC14_6shared, ruleC11_6)
+}
 
 func ruleC14(c *Ctx) {
 	R := c.R
@@ -227,7 +231,29 @@ func ruleC14(c *Ctx) {
 			detail = fmt.Sprintf("loop trip=%d black=%v guard=%v same-entry=%v", trip, black, okGuard, okArg)
 		}
 		R.Check(ok, key+"#palette.sanitised", c.Pos(reset.Site), "the palette handed to Reset is sanitised", detail)
+
+		// ---- C14.6 nothing else touches the metadata ----
+		R.Rule("C14.6", "what the chunks stored and the options changed is what is handed on: decode itself (outside the chunk decoder and the option calls) writes the metadata only in the sanitising pass - no other store into the viewBox or the palette between the chunks and Reset / the metadata-only return, so the listing, DecodeViewBox and Reset see the same values", 1)
+		nOther := 0
+		for _, st := range stores {
+			if pass != nil && st.Site == pass.Site {
+				continue
+			}
+			nOther++
+			R.Bad(fmt.Sprintf("%s#metadata-store:%s", key, st.Callee), c.Pos(st.Site), "no store into the metadata outside the sanitising pass", "stores "+shortKey(st.Args[1])+" under "+shortKey(st.Guard))
+		}
+		if nOther == 0 {
+			R.OK(key+"#metadata-stores", pos, fmt.Sprintf("%d stores seen, all in the sanitising pass", len(stores)))
+		}
 	}
+}
+
+// ruleC14_6shared: C14.6 by reference, for the properties that rely on it (C11: printed = delivered for the viewBox;
+// C13: the metadata decoded is the metadata delivered).
+func ruleC14_6shared(c *Ctx) {
+	c.R.Only("C14.6")
+	ruleC14(c)
+	c.R.Only()
 }
 
 // laterState reports whether a memory-state atom key belongs to a join point
